@@ -19,7 +19,7 @@ package vuego
 
 //@ func escapeAttrValue(val) (r)
 //@   pure
-//@   ensures C01.attr.noquote: forall i int :: 0 <= i && i < len(r) ==> r[i] != '"'
+//@   ensures C01.attr.noquote: !contains(r, "\"")
 //@   ensures C02.attr.exact: r == Esc(val)
 
 //@ spec func attrItem(a html.Attribute) string {
@@ -32,3 +32,43 @@ package vuego
 //@   ensures C14.attrs.exact: r == specAttrs(attrs, len(attrs))
 //@   loop 0 invariant bounds: 0 <= $i && $i <= len(attrs)
 //@   loop 0 invariant C14.attrs.prefix: built(&sb) == specAttrs(attrs, $i)
+
+// ---- serialiser ----
+
+//@ spec func curTag(ctx VueContext) string { len(ctx.TagStack) == 0 ? "" : ctx.TagStack[len(ctx.TagStack)-1] }
+//@ spec func rawParent(ctx VueContext) bool { curTag(ctx) == "script" || curTag(ctx) == "style" }
+//@ spec func spaces(n int) string
+//@ spec func trimSpace(s string) string
+//@ spec func noLtFrom(s string, from int) bool { !contains(s[from:], "<") }
+
+//@ func (ctx VueContext) CurrentTag() (r)
+//@   pure
+//@   ensures r == curTag(ctx)
+
+//@ func (ctx *VueContext) PushTag(tag)
+//@   modifies ctx.TagStack
+//@ func (ctx *VueContext) PopTag()
+//@   modifies ctx.TagStack
+
+//@ func getIndent(indent) (r)
+//@   pure
+//@   trusted
+//@   ensures r == spaces(indent)
+//@   ensures !contains(r, "<")
+
+//@ func shouldEscapeTextNode(data) (r)
+//@   pure
+//@   ensures C01.text.sniff: !r ==> !contains(data, "<") && !contains(data, ">")
+
+//@ func renderNodeWithContext(ctx, w, node, indent) (err)
+//@   modifies out(w), failed(w)
+//@   ensures C12.prefix: hasPrefix(out(w), old(out(w)))
+//@   ensures C12.reported: failed(w) && !old(failed(w)) ==> err != nil
+//@   ensures C12.complete: err == nil ==> failed(w) == old(failed(w))
+//@   ensures C01.text.nolt: node.Type == html.TextNode && !rawParent(ctx) ==> noLtFrom(out(w), len(old(out(w))))
+//@   ensures C02.text.exact: node.Type == html.TextNode && !rawParent(ctx) && err == nil ==>
+//@     out(w) == old(out(w)) + (trimSpace(node.Data) == "" ? "" : spaces(indent) + Esc(node.Data))
+//@   ensures C02.doctype: node.Type == html.DoctypeNode && err == nil ==> out(w) == old(out(w)) + "<!DOCTYPE " + node.Data + ">\n"
+//@   loop 2 invariant C12.loop.prefix: hasPrefix(out(w), old(out(w))) && (failed(w) ==> old(failed(w)))
+//@   loop 3 invariant C12.loop.prefix: hasPrefix(out(w), old(out(w))) && (failed(w) ==> old(failed(w)))
+//@   loop 4 invariant C12.loop.prefix: hasPrefix(out(w), old(out(w))) && (failed(w) ==> old(failed(w)))
